@@ -231,7 +231,6 @@ func runC12(r *simkit.Run, c Cfg) {
 			}
 		}
 	}
-	absent := must(multihash.Sum([]byte("absent"), multihash.SHA2_256, -1))
 	var cl *findclient.DHashClient
 	preload := tp.Chance(1, 2, "preload")
 	r.Logf("~cfg", "multihashes=%d byzantine=%v preload=%v", nmh, byzantine, preload)
@@ -276,11 +275,22 @@ func runC12(r *simkit.Run, c Cfg) {
 
 	nfinds := tp.Range(1, 5, "nfinds")
 	conc := 1
-	if tp.Chance(1, 3, "concurrent") {
+	if nmh >= 2 && tp.Chance(1, 3, "concurrent") {
 		conc = 2
 	}
 	for k := 0; k < conc; k++ {
+		k := k
+		// concurrent finders look up disjoint multihashes: identical pending
+		// requests of two callers could not be told apart
+		absent := must(multihash.Sum([]byte(fmt.Sprintf("absent-%d", k)), multihash.SHA2_256, -1))
+		var mine []multihash.Multihash
+		for i, m := range mhs {
+			if i%conc == k {
+				mine = append(mine, m)
+			}
+		}
 		r.Go(fmt.Sprintf("finder%d", k+1), func(t *simkit.Task) {
+			mhs := mine
 			for i := 0; i < nfinds && !r.Failed(); i++ {
 				t.Yield("op")
 				mh := absent
@@ -313,7 +323,7 @@ func runC12(r *simkit.Run, c Cfg) {
 					}
 					want = append(want, model.ProviderResult{ContextID: e.ctxID, Metadata: e.metadata, Provider: &peer.AddrInfo{ID: e.prov.ID}})
 				}
-				t.Logf("Find(#%d) -> err=%v results=%d want=%d", indexOfMH(mhs, mh), err != nil, nres(resp), len(want))
+				t.Logf("Find(#%d) -> err=%v results=%d want=%d", indexOfMH(mine, mh), err != nil, nres(resp), len(want))
 				if err != nil {
 					if !bad {
 						r.Violate("c12.find", "reader-privacy find over a healthy store failed: %v", err)
